@@ -14,6 +14,7 @@ import Driver.Life
 import Driver.Up
 import Driver.Rec
 import Driver.Wire
+import Driver.Ord
 /-
   Line-protocol driver: one request per line on stdin, one canonical answer per line on stdout.
   The same request lines are executed by the Go harness against the real implementation.
@@ -40,6 +41,7 @@ def step (line : String) : String :=
   | "up" :: rest => upLine toks.tail!
   | "rec" :: rest => recLine toks.tail!
   | "wire" :: rest => wireLine rest
+  | "ord" :: rest => ordLine rest
   | "rc" :: rest => rcLine toks.tail!
   | _ => "bad-op"
 
